@@ -98,6 +98,11 @@ Definition wf_route (a : route_ast) : bool :=
   && wf_shape (r_shape a).
 
 (* ================================================================ (2) spellings *)
+(* a decimal numeral longer than this is not read by the interpreter (int-string limit of
+   CPython >= 3.11, counted with the leading zeros): such spellings are outside the grammar, and
+   the reference reader is silent about them *)
+Definition NUMERAL_LIMIT : Z := 4300.
+Definition numeral_ok (t : text) : bool := Z.of_nat (List.length t) <=? NUMERAL_LIMIT.
 Inductive port_sp := ByName (alias : text) | ByNumber (zeros : nat).
 Record hop_sp := mkHopSp { sp_sep1 : Z; sp_port : port_sp; sp_sep2 : Z; sp_lzeros : nat }.
 Record spelling := mkSp { sp_tcp_zeros : nat; sp_hops : list hop_sp; sp_slot_sep : Z; sp_slot_zeros : nat }.
@@ -128,10 +133,13 @@ Definition render (sp : spelling) (a : route_ast) : text :=
 Definition wf_port_sp (s : port_sp) (n : Z) : bool :=
   match s with
   | ByName a => match lookup a doc_port_names with Some k => k =? n | None => false end
-  | ByNumber _ => true
+  | ByNumber z => numeral_ok (decimal z n)
   end.
+Definition wf_link_sp (zeros : nat) (l : link) : bool :=
+  match l with Slot n => numeral_ok (decimal zeros n) | Addr _ => true end.
 Definition wf_hop_sp (s : hop_sp) (h : hop) : bool :=
-  is_sep (sp_sep1 s) && is_sep (sp_sep2 s) && wf_port_sp (sp_port s) (h_port h).
+  is_sep (sp_sep1 s) && is_sep (sp_sep2 s) && wf_port_sp (sp_port s) (h_port h)
+  && wf_link_sp (sp_lzeros s) (h_link h).
 Fixpoint wf_hop_sps (ss : list hop_sp) (hs : list hop) : bool :=
   match ss, hs with
   | [], [] => true
@@ -139,9 +147,13 @@ Fixpoint wf_hop_sps (ss : list hop_sp) (hs : list hop) : bool :=
   | _, _ => false
   end.
 Definition wf_spelling (sp : spelling) (a : route_ast) : bool :=
+  (match r_tcp a with
+   | Some p => numeral_ok (decimal (sp_tcp_zeros sp) p)
+   | None => true
+   end) &&
   match r_shape a with
   | Explicit hs => wf_hop_sps (sp_hops sp) hs
-  | SlotOnly _ => is_sep (sp_slot_sep sp)
+  | SlotOnly n => is_sep (sp_slot_sep sp) && numeral_ok (decimal (sp_slot_zeros sp) n)
   end.
 
 (* an IPv4 link from its four octets, for callers that think in numbers *)
@@ -177,13 +189,17 @@ Inductive tcp_verdict :=
 Inductive hop_verdict := HOk (h : hop) | HUnspec | HBad (c : rclass).
 Inductive route_verdict := RouteOk (hs : list hop) | RouteUnspec | RouteReject (c : rclass).
 
-Definition blank (c : Z) : bool := ((9 <=? c) && (c <=? 13)) || ((28 <=? c) && (c <=? 32)).
+Definition blank (c : Z) : bool := ((9 <=? c) && (c <=? 13)) || (c =? 32).
+
 Definition lenient_char (c : Z) : bool :=
   is_ascii_digit c || (c =? 95) || (c =? 43) || (c =? 45) || blank c.
 Definition classify_tcp (cs : list text) : tcp_verdict :=
   match cs with
   | [] => TcpNone
-  | [p] => if isdigit p then (if wf_tcp (dval p) then TcpOk (dval p) else TcpBad)
+  | [p] => if isdigit p
+           then (if wf_tcp (dval p)
+                 then (if numeral_ok p then TcpOk (dval p) else TcpLenient)
+                 else TcpBad)
            else if forallb lenient_char p && existsb is_ascii_digit p then TcpLenient else TcpBad
   | _ => TcpBad
   end.
@@ -193,13 +209,15 @@ Definition classify_port (t : text) : port_verdict :=
   match lookup t doc_port_names with
   | Some n => PortOk n
   | None => if isdigit t
-            then (if dval t =? 0 then PortUnspec          (* reserved port identifier *)
-                  else if dval t <=? PMAX then PortOk (dval t) else PortBad)
+            then (if (1 <=? dval t) && (dval t <=? PMAX) && numeral_ok t then PortOk (dval t)
+                  else PortUnspec)      (* 0 = reserved identifier, > 65535 = no CIP port: silent *)
             else PortBad
   end.
 Inductive link_verdict := LinkOk (l : link) | LinkUnspec | LinkBad (c : rclass).
 Definition classify_link (t : text) : link_verdict :=
-  if isdigit t then (if dval t <=? 255 then LinkOk (Slot (dval t)) else LinkBad LinkOutOfRange)
+  if isdigit t
+  then (if negb (numeral_ok t) then LinkUnspec
+        else if dval t <=? 255 then LinkOk (Slot (dval t)) else LinkBad LinkOutOfRange)
   else if existsb is_colon t then LinkUnspec              (* IPv6 text: outside this specification *)
   else if strict_quad t then LinkOk (Addr t) else LinkBad BadLink.
 
